@@ -430,6 +430,15 @@ def run(ck):
         sc = max(rx1, ry1, rx2, ry2, abs(ln))
         if len(ms) != len(impl) or any(not close_v(a, b, sc, 1e-10) for a, b in zip(ms, impl)):
             dis.append(dict(why='helix points', case=dict(n=n, length=ln, turnlen=turn, r=[rx1, ry1, rx2, ry2])))
+        # on the implementation alone: point k lies at height k/n of the (absolute) length on the ellipse whose half axes have gone the
+        # fraction k/n of the way from the first to the second pair of radii
+        for k, p_ in enumerate(impl):
+            t_ = k / n
+            rx_, ry_ = rx1 + (rx2 - rx1) * t_, ry1 + (ry2 - ry1) * t_
+            if abs((p_[0] / rx_) ** 2 + (p_[1] / ry_) ** 2 - 1) > 1e-9 or abs(p_[2] - abs(ln) * t_) > 1e-9 * abs(ln):
+                viol.append(dict(kind='helix', n=n, length=ln, turnlen=turn, r=[rx1, ry1, rx2, ry2],
+                                 observed='point %d (%r) is not on the ellipse with half axes %.6g, %.6g at height %.6g' % (k, p_, rx_, ry_, abs(ln) * t_)))
+                break
     # rotations and transformation order
     for i in range(N // 2):
         rot = [rng.choice([0.0, 90.0, rng.uniform(-360, 360)]) for _ in range(3)]
